@@ -174,7 +174,7 @@ Section P.
     pose proof (received_spec _ _ _ _ R) as (_ & A & B). unfold pay_in in P.
     destruct (is_native kind).
     - destruct (A eq_refl) as (-> & -> & E). rewrite E in P. exact P.
-    - destruct (B eq_refl) as (Z & p & E & <- & _ & <-). rewrite E, Z in P. cbn in P.
+    - destruct (B eq_refl) as (Z & p & E & <- & Zn & <-). rewrite E, Z in P. cbn [pay_esdts] in P. rewrite Zn, ltok_0 in P. change (0 =? 0) with true in P. cbv iota in P.
       destruct (transfer l (gc_caller c) (gc_self c) (ep_token p) (ep_amount p)); [inversion P; reflexivity | discriminate].
   Qed.
 End P.
